@@ -1,4 +1,5 @@
 import Engeom.Generated.RsC05
+import Engeom.Generated.RsC05_3d
 /-
   C05 — translation tie.  `resample_by_count` and `resample_by_spacing` of src/geom2/curve2.rs are
   regenerated from the /repo working tree on every run by tools/rs2lean.py — their `for` / `while`
@@ -60,4 +61,37 @@ theorem resample_by_spacing_eq (c : Curve α (V2 α)) (s : α) (fuel : Nat) :
       = c.resampleAt (centred c.length (positionsBySpacing c.length s fuel 0 [])) := by
   unfold GenRs.resample_by_spacing2
   rw [centred_eq, ← while_positions_eq]
+
+/-! the 3-D versions (src/geom3/curve3.rs; they `unwrap` the result, the model keeps the `Option`) -/
+
+theorem resample_by_count3_eq (c : Curve α (V3 α)) (n : Nat) :
+    GenRs.resample_by_count3 c n = c.resampleAt (positionsByCount ofNatS c.length n) := by
+  unfold GenRs.resample_by_count3 positionsByCount
+  have := foldl_push_eq_map (fun i => (ofNatS i / ofNatS (n - 1) * c.length : α)) (List.range n) []
+  simp only [List.nil_append] at this
+  simp only [ofNatS] at this ⊢
+  rw [this]
+
+theorem resample_by_spacing3_eq (c : Curve α (V3 α)) (s : α) (fuel : Nat) :
+    GenRs.resample_by_spacing3 c s fuel
+      = c.resampleAt (centred c.length (positionsBySpacing c.length s fuel 0 [])) := by
+  unfold GenRs.resample_by_spacing3
+  rw [centred_eq, ← while_positions_eq]
+
+/-- the counter loop of `fill_gaps` is the model's `gapCount` -/
+theorem fill_gaps_count_aux (d maxd : α) (fuel n : Nat) :
+    whileFuel fuel (fun n => decide (maxd < d / (Scalar.ofRat (n + 1) 1 : α))) (fun n => n + 1) n
+      = gapCount ofNatS d maxd fuel n := by
+  induction fuel generalizing n with
+  | zero => rfl
+  | succ k ih =>
+    unfold whileFuel gapCount
+    by_cases h : maxd < d / (Scalar.ofRat (n + 1) 1 : α)
+    · simp only [h, decide_true, if_true, ofNatS]
+      exact ih (n + 1)
+    · simp only [h, decide_false, if_false, ofNatS, Bool.false_eq_true]
+
+theorem fill_gaps_count_eq (d maxd : α) (fuel : Nat) :
+    GenRs.fill_gaps_count d maxd fuel = gapCount ofNatS d maxd fuel 1 :=
+  fill_gaps_count_aux d maxd fuel 1
 end C05T
